@@ -118,18 +118,156 @@ impl SymU128 {
         u128::try_from(v).expect("u128 range")
     }
 }
-impl Div<u64> for SymU64 {
-    type Output = SymU64;
-    fn div(self, rhs: u64) -> SymU64 {
-        SymU64(sym::div(self.0, sym::ku(rhs as u128)))
-    }
+// The stand-ins behave like the primitive integers they replace, so that ordinary integer code in the
+// crate under test (and realistic edits of it) compiles unchanged: + and * exclude overflow by
+// assumption (as the numeric types do), - panics on underflow like a debug build, / and % by zero panic.
+macro_rules! prim_ops {
+    ($t:ident, $p:ty, $max:expr) => {
+        impl $t {
+            fn fit(r: Tm) -> Tm {
+                sym::assume_no_overflow(sym::le(r, $max));
+                r
+            }
+            fn minus(a: Tm, b: Tm) -> Tm {
+                if !sym::decide(sym::le(b, a)) {
+                    panic!("attempt to subtract with overflow");
+                }
+                sym::sub(a, b)
+            }
+            fn nonzero(b: Tm) -> Tm {
+                if sym::decide(sym::eq(b, sym::ku(0))) {
+                    panic!("attempt to divide by zero");
+                }
+                b
+            }
+        }
+        impl Add for $t {
+            type Output = $t;
+            fn add(self, o: $t) -> $t {
+                $t(Self::fit(sym::add(self.0, o.0)))
+            }
+        }
+        impl Add<$p> for $t {
+            type Output = $t;
+            fn add(self, o: $p) -> $t {
+                $t(Self::fit(sym::add(self.0, sym::ku(o as u128))))
+            }
+        }
+        impl Add<$t> for $p {
+            type Output = $t;
+            fn add(self, o: $t) -> $t {
+                $t($t::fit(sym::add(sym::ku(self as u128), o.0)))
+            }
+        }
+        impl Sub for $t {
+            type Output = $t;
+            fn sub(self, o: $t) -> $t {
+                $t(Self::minus(self.0, o.0))
+            }
+        }
+        impl Sub<$p> for $t {
+            type Output = $t;
+            fn sub(self, o: $p) -> $t {
+                $t(Self::minus(self.0, sym::ku(o as u128)))
+            }
+        }
+        impl Sub<$t> for $p {
+            type Output = $t;
+            fn sub(self, o: $t) -> $t {
+                $t($t::minus(sym::ku(self as u128), o.0))
+            }
+        }
+        impl Mul for $t {
+            type Output = $t;
+            fn mul(self, o: $t) -> $t {
+                $t(Self::fit(sym::mul(self.0, o.0)))
+            }
+        }
+        impl Mul<$p> for $t {
+            type Output = $t;
+            fn mul(self, o: $p) -> $t {
+                $t(Self::fit(sym::mul(self.0, sym::ku(o as u128))))
+            }
+        }
+        impl Mul<$t> for $p {
+            type Output = $t;
+            fn mul(self, o: $t) -> $t {
+                $t($t::fit(sym::mul(sym::ku(self as u128), o.0)))
+            }
+        }
+        impl Div for $t {
+            type Output = $t;
+            fn div(self, o: $t) -> $t {
+                $t(sym::div(self.0, Self::nonzero(o.0)))
+            }
+        }
+        impl Div<$p> for $t {
+            type Output = $t;
+            fn div(self, o: $p) -> $t {
+                $t(sym::div(self.0, Self::nonzero(sym::ku(o as u128))))
+            }
+        }
+        impl Rem for $t {
+            type Output = $t;
+            fn rem(self, o: $t) -> $t {
+                $t(sym::rem(self.0, Self::nonzero(o.0)))
+            }
+        }
+        impl Rem<$p> for $t {
+            type Output = $t;
+            fn rem(self, o: $p) -> $t {
+                $t(sym::rem(self.0, Self::nonzero(sym::ku(o as u128))))
+            }
+        }
+        impl PartialOrd for $t {
+            fn partial_cmp(&self, o: &$t) -> Option<core::cmp::Ordering> {
+                Some(if sym::decide(sym::lt(self.0, o.0)) {
+                    core::cmp::Ordering::Less
+                } else if sym::decide(sym::eq(self.0, o.0)) {
+                    core::cmp::Ordering::Equal
+                } else {
+                    core::cmp::Ordering::Greater
+                })
+            }
+            fn lt(&self, o: &$t) -> bool {
+                sym::decide(sym::lt(self.0, o.0))
+            }
+            fn le(&self, o: &$t) -> bool {
+                sym::decide(sym::le(self.0, o.0))
+            }
+            fn gt(&self, o: &$t) -> bool {
+                sym::decide(sym::lt(o.0, self.0))
+            }
+            fn ge(&self, o: &$t) -> bool {
+                sym::decide(sym::le(o.0, self.0))
+            }
+        }
+        impl PartialOrd<$p> for $t {
+            fn partial_cmp(&self, o: &$p) -> Option<core::cmp::Ordering> {
+                self.partial_cmp(&$t(sym::ku(*o as u128)))
+            }
+            fn lt(&self, o: &$p) -> bool {
+                sym::decide(sym::lt(self.0, sym::ku(*o as u128)))
+            }
+            fn le(&self, o: &$p) -> bool {
+                sym::decide(sym::le(self.0, sym::ku(*o as u128)))
+            }
+            fn gt(&self, o: &$p) -> bool {
+                sym::decide(sym::lt(sym::ku(*o as u128), self.0))
+            }
+            fn ge(&self, o: &$p) -> bool {
+                sym::decide(sym::le(sym::ku(*o as u128), self.0))
+            }
+        }
+        impl PartialOrd<$t> for $p {
+            fn partial_cmp(&self, o: &$t) -> Option<core::cmp::Ordering> {
+                $t(sym::ku(*self as u128)).partial_cmp(o)
+            }
+        }
+    };
 }
-impl Rem<u64> for SymU64 {
-    type Output = SymU64;
-    fn rem(self, rhs: u64) -> SymU64 {
-        SymU64(sym::rem(self.0, sym::ku(rhs as u128)))
-    }
-}
+prim_ops!(SymU64, u64, T_U64_MAX);
+prim_ops!(SymU128, u128, T_U128_MAX);
 
 /// the placeholder codec: constants print as decimal digits, symbolic values as `$<term id>`
 pub fn render(t: Tm) -> String {
